@@ -65,6 +65,9 @@ template<typename T>
 const T NDArray::get(size_t index) const
 {
     T value;
+    if (index >= dstore.size() / sizeof(T)) {
+        throw OutOfBounds("NDArray::get: index out of bounds", index);
+    }
     const byte_type *offset = dstore.data() + sizeof(T) * index;
     memcpy(&value, offset, sizeof(T));
     return value;
@@ -82,6 +85,9 @@ const T NDArray::get(const NDSize &index) const
 template<typename T>
 void NDArray::set(size_t index, T value)
 {
+    if (index >= dstore.size() / sizeof(T)) {
+        throw OutOfBounds("NDArray::set: index out of bounds", index);
+    }
     byte_type *offset = dstore.data() + sizeof(T) * index;
     memcpy(offset, &value, sizeof(T));
 }
